@@ -76,6 +76,9 @@ func (m *OddPrimeFactors) UnmarshalCBOR(data []byte) error {
 	if err != nil {
 		return errs.Wrap(err)
 	}
+	if dto.P == nil || dto.Q == nil {
+		return ErrFailed.WithMessage("missing prime factor")
+	}
 	out, ok := NewOddPrimeFactors(dto.P, dto.Q)
 	if ok == ct.False {
 		return ErrFailed.WithMessage("failed to create OddPrimeFactors")
@@ -100,6 +103,9 @@ func (m *OddPrimeSquareFactors) UnmarshalCBOR(data []byte) error {
 	dto, err := serde.UnmarshalCBOR[pairDTO](data)
 	if err != nil {
 		return errs.Wrap(err)
+	}
+	if dto.P == nil || dto.Q == nil {
+		return ErrFailed.WithMessage("missing prime factor")
 	}
 	out, ok := NewOddPrimeSquareFactors(dto.P, dto.Q)
 	if ok == ct.False {
